@@ -18,6 +18,14 @@ impl Graveyard {
 
     /// Add a new connection.
     /// Return tracker of previous connection if connection id already exists
+    #[cfg(feature = "verif-hooks")]
+    pub(crate) fn verif_keys(&self) -> Vec<(String, bool)> {
+        self.connections
+            .iter()
+            .map(|(k, v)| (k.clone(), v.session_state.is_some()))
+            .collect()
+    }
+
     pub fn retrieve(&mut self, id: &str) -> Option<SavedState> {
         self.connections.remove(id)
     }
